@@ -217,11 +217,13 @@ class Rank:
                 #
                 return None
 
-            if self._attrs.getShape() == 0:
+            if not self._attrs.getShape():
                 #
-                # We do not actually know the shape, but we can estimate it
+                # We do not actually know the shape (it was recorded
+                # as 0 or never recorded), but we can estimate it
                 #
-                return max([f.estimateShape(all_ranks=False) for f in self.fibers])
+                return max([f.estimateShape(all_ranks=False) for f in self.fibers],
+                           default=0)
 
             return self._attrs.getShape()
 
